@@ -316,7 +316,11 @@ Section PHist.
     k_cur : N; k_env : env;
     k_started : bool;                 (* a controller exists *)
     k_last : N; k_prev : N; k_croot : N;   (* epoch and roots of the last head event for the current slot *)
-    k_ticked : list N                 (* epochs the ticker has run for since the last start *)
+    k_ticked : list N;                (* epochs the ticker has run for since the last start *)
+    k_start_ep : N;                   (* the epoch of the last start *)
+    k_envs : list env;                (* every view of the node since the last start (the one at the start included) *)
+    k_fired : list N;                 (* slots whose sync committee preparation job was run since the last start *)
+    k_mono : bool                     (* the clock never went backwards *)
   }.
 
   (* refresh of attestations of [e] happens unless the epoch is still waiting for its preparation *)
@@ -354,15 +358,23 @@ Section PHist.
 
   Definition track (k : tracker) (o : op) : tracker :=
     match o with
-    | Advance s => {| k_cur := s; k_env := k_env k; k_started := k_started k; k_last := k_last k; k_prev := k_prev k; k_croot := k_croot k; k_ticked := k_ticked k |}
-    | SetEnv e' => {| k_cur := k_cur k; k_env := e'; k_started := k_started k; k_last := k_last k; k_prev := k_prev k; k_croot := k_croot k; k_ticked := k_ticked k |}
-    | Start => {| k_cur := k_cur k; k_env := k_env k; k_started := true; k_last := 0; k_prev := 0; k_croot := 0; k_ticked := [] |}
+    | Advance s => {| k_cur := s; k_env := k_env k; k_started := k_started k; k_last := k_last k; k_prev := k_prev k; k_croot := k_croot k; k_ticked := k_ticked k;
+                      k_start_ep := k_start_ep k; k_envs := k_envs k; k_fired := k_fired k; k_mono := k_mono k && (k_cur k <=? s) |}
+    | SetEnv e' => {| k_cur := k_cur k; k_env := e'; k_started := k_started k; k_last := k_last k; k_prev := k_prev k; k_croot := k_croot k; k_ticked := k_ticked k;
+                      k_start_ep := k_start_ep k; k_envs := e' :: k_envs k; k_fired := k_fired k; k_mono := k_mono k |}
+    | Start => {| k_cur := k_cur k; k_env := k_env k; k_started := true; k_last := 0; k_prev := 0; k_croot := 0; k_ticked := [];
+                  k_start_ep := ep_of (k_cur k); k_envs := [k_env k]; k_fired := []; k_mono := true |}
     | Tick => {| k_cur := k_cur k; k_env := k_env k; k_started := k_started k; k_last := k_last k; k_prev := k_prev k; k_croot := k_croot k;
-                 k_ticked := ep_of (k_cur k) :: k_ticked k |}
+                 k_ticked := ep_of (k_cur k) :: k_ticked k;
+                 k_start_ep := k_start_ep k; k_envs := k_envs k; k_fired := k_fired k; k_mono := k_mono k |}
     | Head s pr cr =>
         if s =? k_cur k
-        then {| k_cur := k_cur k; k_env := k_env k; k_started := k_started k; k_last := ep_of s; k_prev := pr; k_croot := cr; k_ticked := k_ticked k |}
+        then {| k_cur := k_cur k; k_env := k_env k; k_started := k_started k; k_last := ep_of s; k_prev := pr; k_croot := cr; k_ticked := k_ticked k;
+                k_start_ep := k_start_ep k; k_envs := k_envs k; k_fired := k_fired k; k_mono := k_mono k |}
         else k
+    | Fire (JSync s) _ =>
+        {| k_cur := k_cur k; k_env := k_env k; k_started := k_started k; k_last := k_last k; k_prev := k_prev k; k_croot := k_croot k; k_ticked := k_ticked k;
+           k_start_ep := k_start_ep k; k_envs := k_envs k; k_fired := s :: k_fired k; k_mono := k_mono k |}
     | _ => k
     end.
 
@@ -427,17 +439,47 @@ Section PHist.
     end.
 
   Definition sync_complete (handling : bool) (fork : N) (o : op) (e_ : env) (cur : N) (A : table) : bool :=
-    let direct := match o with SchedSync _ _ => true | RefreshSync _ => handling | _ => false end in
+    let direct := match o with SchedSync _ _ => true | RefreshSync _ | Start => handling | _ => false end in
     if negb direct then true else
     forallb (fun pn => let '(P, nc) := pn in
                if e_vals e_ && (fork <=? ep_of cur) && negb (match exp_sync e_ P with [] => true | _ => false end)
                then forallb (fun s => ((s =? cur) && nc) || texists A (JSync s)) (slot_range (sync_lo fork cur P) (sync_hi fork P))
-               else true) (sync_periods o cur).
+               else true)
+            (match o with
+             | Start => [(ep_of cur / c_period c, true)]     (* a start-up covers the rest of the current period at once *)
+             | _ => sync_periods o cur
+             end).
 
   Definition sync_step_ok (init : option (bool * N)) (o : op) (e_ : env) (cur : N) (B A : table) : bool :=
     let '(handling, fork) := fork_of init in
     forallb (fun j => same_job B j || sync_new_ok fork e_ cur (sync_periods o cur) j) A &&
     sync_complete handling fork o e_ cur A.
+
+  (* Start-up / restart completeness for sync committee duties, over the whole history.  Once a
+     controller built by the public constructor runs on a chain at or past its Altair fork, with
+     the epoch ticker having run in every epoch entered since the start-up, the preparation jobs
+     of the next two slots exist (or have run), whichever sync period those slots belong to: the
+     start-up and the later epoch ticks together must have set up the NEXT period before its
+     first slot comes up, wherever in the period the process was (re)started.  The node must have
+     named a validator for that period in every view it gave since the start-up; the sync period
+     is at least as long as the preparation lead (5 epochs), as on every real chain. *)
+  Definition ticked_through (k : tracker) : bool :=
+    forallb (fun e => memb N.eqb e (k_ticked k)) (slot_range (k_start_ep k + 1) (ep_of (k_cur k))).
+
+  Definition sync_cover (init : option (bool * N)) (k : tracker) (A : table) : bool :=
+    match init with
+    | Some _ => true            (* built from parts by the hook constructor: no start-up *)
+    | None =>
+        let '(handling, fork) := fork_of init in
+        let cur := k_cur k in
+        if negb (k_started k && handling && k_mono k && (5 <=? c_period c) && (fork <=? ep_of cur) &&
+                 (k_start_ep k <=? ep_of cur) && ticked_through k) then true else
+        forallb (fun s =>
+                   let Q := ep_of (s + 1) / c_period c in
+                   if forallb (fun e_ => e_vals e_ && negb (match exp_sync e_ Q with [] => true | _ => false end)) (k_envs k)
+                   then texists A (JSync s) || memb N.eqb s (k_fired k)
+                   else true) [cur + 1; cur + 2]
+    end.
 
   Fixpoint walk (init : option (bool * N)) (k : tracker) (B : table) (ops : list op) (tabs : list table) : bool :=
     match ops, tabs with
@@ -446,6 +488,7 @@ Section PHist.
         let B' := match o with Start => [] | _ => B end in     (* a restart begins with an empty scheduler *)
         step_ok o (k_env k) (k_cur k) (touches k o B') B' A && tick_ok k o A && sync_ok init A &&
         sync_step_ok init o (k_env k) (k_cur k) B' A &&
+        sync_cover init (track k o) A &&
         walk init (track k o) A ops' tabs'
     | _, _ => false
     end.
@@ -456,7 +499,8 @@ Section PHist.
   Definition P_hist (init : option (bool * N)) (ops : list op) (snaps : list (option table))
              (att_log prop_log : list (N * payload)) (wf : bool) : bool :=
     let k0 := {| k_cur := 0; k_env := empty_env; k_started := match init with Some _ => true | None => false end;
-                 k_last := 0; k_prev := 0; k_croot := 0; k_ticked := [] |} in
+                 k_last := 0; k_prev := 0; k_croot := 0; k_ticked := [];
+                 k_start_ep := 0; k_envs := []; k_fired := []; k_mono := true |} in
     walk init k0 [] ops (expand [] snaps) &&
     (* no slot is attested for or proposed for twice *)
     (if wf then nodup_b (map fst att_log) && nodup_b (map fst prop_log) else true).
